@@ -95,7 +95,7 @@ func Verif14Decode(sesh *Session, data []byte) (sid uint32, seq uint64, closing 
 }
 
 func Verif14MaxUnit(sesh *Session) int { return sesh.maxStreamUnitWrite }
-func Verif14StreamID(s *Stream) uint32  { return s.id }
+func Verif14StreamID(s *Stream) uint32 { return s.id }
 
 // Verif14TryAccept returns a newly created stream if one is queued, without blocking.
 func Verif14TryAccept(sesh *Session) *Stream {
